@@ -319,6 +319,7 @@ func cmdCheck(args []string) int {
 	}
 	var concRuns []concRun
 	cfgOf := map[string]sym.Config{}
+	var monLog *sym.MonitorLog
 
 	for _, h := range spec.Harnesses {
 		if *only != "" && h.Func != *only {
@@ -359,6 +360,7 @@ func cmdCheck(args []string) int {
 			problems++
 		}
 		ev.addHarness(h, e, cfg)
+		monLog = sym.MergeMonitor(monLog, e.Mon)
 		var keys []string
 		for k := range e.Violations {
 			keys = append(keys, k)
@@ -534,6 +536,46 @@ func cmdCheck(args []string) int {
 		}
 	} else if len(pendingViol) > 0 {
 		problems++
+	}
+
+	// lock-discipline post-pass (C13, C14): lockset rule over all monitored paths
+	if monLog != nil {
+		ev.Monitor = monLog.Summary()
+		cands := monLog.RaceCandidates()
+		ev.RaceCandidates = len(cands)
+		os.MkdirAll(filepath.Join("/verif/replays", id), 0o755)
+		for i, c := range cands {
+			desc := fmt.Sprintf("unsynchronised conflicting accesses to shared location %s: role %s at %s (write=%v atomic=%v locks=%q) and role %s at %s (write=%v atomic=%v locks=%q)",
+				c.Loc, c.RoleA, c.A.Site, c.A.Write, c.A.Atomic, c.A.Locks, c.RoleB, c.B.Site, c.B.Write, c.B.Atomic, c.B.Locks)
+			label := c.Loc + " " + c.A.Site + " | " + c.B.Site
+			isKnown := false
+			for _, k := range known.Findings {
+				if k.Property == id && strings.Contains("race:"+label, k.Match) {
+					fmt.Printf("KNOWN-FINDING: property=%s %s\n", id, k.What)
+					isKnown = true
+					knownHits++
+					break
+				}
+			}
+			if isKnown {
+				continue
+			}
+			path := filepath.Join("/verif/replays", id, fmt.Sprintf("race-%d.json", i))
+			rf := replayFile{Property: id, Harness: "lockset", Kind: "race", Label: label, Msg: desc, Expect: "race"}
+			if v := monLog.First[c.RoleA+"|"+c.Loc+"|"+c.A.Site]; v != nil {
+				rf.Draws = v.Draws
+				rf.Decis = fmt.Sprint(v.Decisions)
+				rf.Site = v.Harness
+			}
+			b, _ := json.MarshalIndent(rf, "", " ")
+			os.WriteFile(path, b, 0o644)
+			fmt.Printf("lock-discipline breach (lockset rule over all monitored paths of the real code; both access sites named; schedules are not enumerated): %s\n", desc)
+			fmt.Printf("VIOLATION property=%s replay=%s\n", id, path)
+			violations++
+			if i >= 8 {
+				break
+			}
+		}
 	}
 
 	ev.Violations = violations
